@@ -163,6 +163,9 @@ func (u *c15Unit) oracle(d *minipg.DB, when string) *finding {
 	seen := map[string]int{}
 	onlyMissingAtStart := true
 	for _, r := range rows {
+		if t.spec.Released {
+			r["decrypted"] = "false" // the flag is the keyper's own (set by this harness), not the syncer's
+		}
 		s := r.Render(cols)
 		seen[s]++
 		if seen[s] > 1 {
@@ -352,6 +355,11 @@ func (u *c15Unit) stepHere(h fakechain.BlockID, f syncx.Fault) c15Outcome {
 	if fnd == nil {
 		fnd = u.oracle(d, fmt.Sprintf("after Sync(%s)", u.t.label[h]))
 	}
+	if u.t.spec.Released && !res.Crashed {
+		if _, err := d.Exec("UPDATE " + u.t.kind.EventTable() + " SET decrypted = TRUE"); err != nil {
+			panic("c15: marking registrations decrypted: " + err.Error())
+		}
+	}
 	after := syncx.ReadStatus(d, u.t.kind)
 	effect := "no-change"
 	switch {
@@ -512,6 +520,7 @@ func c15Worklist(thorough bool) []c15Work {
 				if _, err := buildTree(spec, kind); err != nil {
 					continue // placement would register a key twice on one branch
 				}
+				spec.Released = len(out)%3 == 1 && (kind == syncx.Registry || kind == syncx.Multi)
 				w := c15Work{spec: spec, kind: kind, order: i % 2}
 				if kind == syncx.Multi {
 					w.maxRange = []uint64{4, 0, 3}[i%3] // 0 = default (one range)
